@@ -215,6 +215,14 @@ def run(ctx):
                         decs = [("SuccessiveCancellationDecoder", quiet(SuccessiveCancellationDecoder, enc, regime=regime))]
                         if not polar_i and N <= (64 if quick else 256):
                             decs.append(("BeliefPropagationPolarDecoder", quiet(BeliefPropagationPolarDecoder, enc, regime=regime, bp_iters=10)))
+                            # other iteration budgets and options: as many iterations as stages, fewer (one iteration already decodes clean input
+                            # on the unchanged tree), early stopping, cyclic stage permutations
+                            if mag == 2.0:
+                                for extra in ({"bp_iters": m}, {"bp_iters": 1}, {"bp_iters": max(1, m - 1)}, {"bp_iters": 10, "early_stop": True}, {"bp_iters": 10, "perm": "cycle"}):
+                                    try:
+                                        decs.append(("BeliefPropagationPolarDecoder%s" % sorted(extra.items()), quiet(BeliefPropagationPolarDecoder, enc, regime=regime, **extra)))
+                                    except Exception as ex:
+                                        ctx.note("BeliefPropagationPolarDecoder(%s) constructor: %s" % (extra, str(ex)[:60])) if len(ctx.notes) < 10 else None
                         for dname, dec in decs:
                             out = quiet(dec, llr)
                             ctx.count("noise-free-decodings", nb)
@@ -223,9 +231,9 @@ def run(ctx):
                                 bad = 0
                                 if tuple(out.shape) == (nb, k):
                                     bad = int((out.float() != X).any(dim=1).nonzero()[0])
-                                ctx.violation("C11/%s/noise-free/%s" % (dname, regime),
-                                              "N=%d k=%d frozen_zeros=%s polar_i=%s regime=%s |LLR|~%g: message %s decoded as %s" % (
-                                                  N, k, frozen_zeros, polar_i, regime, mag, X[bad].tolist(), out[bad].tolist() if tuple(out.shape) == (nb, k) else tuple(out.shape)),
+                                ctx.violation("C11/%s/noise-free/%s" % (dname.split("[")[0] + ("/options" if "[" in dname else ""), regime),
+                                              "%sN=%d k=%d frozen_zeros=%s polar_i=%s regime=%s |LLR|~%g: message %s decoded as %s" % (
+                                                  (dname[dname.index("["):] + " ") if "[" in dname else "", N, k, frozen_zeros, polar_i, regime, mag, X[bad].tolist(), out[bad].tolist() if tuple(out.shape) == (nb, k) else tuple(out.shape)),
                                               {"N": N, "k": k, "frozen_zeros": frozen_zeros, "polar_i": polar_i, "regime": regime, "magnitude": mag,
                                                "message": X[bad].tolist(), "llr": llr[bad].tolist()})
                 # T: SC min-sum on arbitrary dyadic LLRs, exact
